@@ -324,7 +324,7 @@ func init() {
 	register("C12", func(env *Env) error {
 		env.Header = tcpHeader + "Corr.C12."
 		env.ShardSize = 120
-		env.Rule = "writer: 1-3 envelopes sent through the real transport over a connection whose Write calls take k bytes and then report a temporary timeout / a fatal error / success, for every k from 0 to the encoding's length, repeated up to 3 times, and with an expired context; reader: streams of 1-4 frames delivered under every split-point set (short streams) or sampled plans (every single and double split, stalls, cuts at every offset), with coalescing. Non-trivial: a fault or a split actually occurred inside an envelope. Distinct by printed case."
+		env.Rule = "writer: 1-3 envelopes sent through the real transport over a connection whose Write calls take k bytes and then report a temporary timeout / a fatal error / success, for every k from 0 to the encoding's length, repeated up to 3 times, and with an expired context; reader: streams of 1-4 frames delivered under every split-point set (short streams) or sampled plans (every single and double split, stalls, cuts at every offset), with coalescing; long streams of small frames totalling six times a small read limit. Non-trivial: a fault or a split actually occurred inside an envelope. Distinct by printed case."
 		if ok, err := tcpReplay(env); ok || err != nil {
 			return err
 		}
@@ -386,6 +386,26 @@ func init() {
 		}
 		add(runReadCase(4096, sizes, one, 3), true)
 		add(runReadCase(4096, []int{50, 60, 70, 80}, nil, 5), false)
+		// long streams of small envelopes under a small read limit: in total many times the limit (the budget
+		// is per envelope, not per connection)
+		for _, L := range []int{128, 256, 1000} {
+			var long []int
+			tot := 0
+			for f := 0; tot < 6*L; f++ {
+				sz := minFrame(f) + (f*7)%40
+				long = append(long, sz)
+				tot += sz
+			}
+			for _, k := range []int{0, 1, 7, L, 3 * L} {
+				var plan []string
+				if k > 0 {
+					for i := 0; i < tot; i += k {
+						plan = append(plan, fmt.Sprintf("chunk:%d", k))
+					}
+				}
+				add(runReadCase(L, long, plan, len(long)+1), true)
+			}
+		}
 		for i := 0; i < env.Pick(60, 800); i++ {
 			nf := 1 + rng.Intn(4)
 			var sz []int
